@@ -66,7 +66,11 @@ func wirePeer(w *W, nt *Net, s mangos.Socket, tran, role string) net.Conn {
 		w.Failf("HARNESS/dial", "%v", err)
 		return nil
 	}
-	if !ev.Wait(time.Second) {
+	dw := time.Second
+	if w.Real {
+		dw = 30 * time.Second
+	}
+	if !ev.Wait(dw) {
 		w.Failf("HARNESS/dial", "the socket never dialled")
 		return nil
 	}
@@ -142,7 +146,7 @@ func wirePeerReal(w *W, s mangos.Socket, tran, role string) net.Conn {
 	case c := <-got:
 		w.OnCleanup(func() { c.Close() })
 		return c
-	case <-time.After(10 * time.Second):
+	case <-time.After(30 * time.Second):
 		w.Failf("HARNESS/dial", "the socket never dialled")
 		return nil
 	}
@@ -165,8 +169,14 @@ func c15WireOn(w *W, trans []string) {
 	nt := w.UseNet(NetCfg{Segment: w.Choose(simrt.SShape, 3) != 0, WriteChunk: w.Choose(simrt.SShape, 2) == 0, BufCap: []int{0, 64, 1000}[w.Choose(simrt.SShape, 3)]})
 	s := w.Sock(kind)
 	defer s.Close()
-	_ = s.SetOption(mangos.OptionRecvDeadline, 50*time.Millisecond)
-	_ = s.SetOption(mangos.OptionSendDeadline, 50*time.Millisecond)
+	// simulated time is exact; on real sockets (engine R) the bounds only
+	// separate "works" from "never happens" on a loaded machine
+	dl, wt := 50*time.Millisecond, 2*time.Second
+	if w.Real {
+		dl, wt = 10*time.Second, 30*time.Second
+	}
+	_ = s.SetOption(mangos.OptionRecvDeadline, dl)
+	_ = s.SetOption(mangos.OptionSendDeadline, dl)
 	if kind == "sub" {
 		mustSet(w, s, mangos.OptionSubscribe, "")
 	}
@@ -190,7 +200,7 @@ func c15WireOn(w *W, trans []string) {
 		_, raw, err := wcReadHeader(pc)
 		return raw, err
 	})
-	if !hs.Wait(time.Second) {
+	if !hs.Wait(wt) {
 		w.Failf("C15/handshake-stuck", "%s over %s (%s): no header from mangos within 1s", kind, tran, role)
 		return
 	}
@@ -213,7 +223,7 @@ func c15WireOn(w *W, trans []string) {
 	}
 	readFrame := func() ([]byte, error) {
 		c := w.Do("peer read", func() (interface{}, error) { return wcReadFrame(pc, ipc, 1<<24) })
-		if !c.Wait(2 * time.Second) {
+		if !c.Wait(wt) {
 			return nil, fmt.Errorf("no complete frame within 2s")
 		}
 		if c.Err != nil {
@@ -242,7 +252,7 @@ func c15WireOn(w *W, trans []string) {
 				payload := append(append([]byte(nil), hdr...), body...)
 				feed(payload)
 				c := w.Do("RecvMsg", func() (interface{}, error) { return s.RecvMsg() })
-				if !c.Wait(2 * time.Second) {
+				if !c.Wait(wt) {
 					w.Failf("C18/late", "RecvMsg pending")
 					return
 				}
@@ -293,7 +303,7 @@ func c15WireOn(w *W, trans []string) {
 				wantHdr = []byte{0, 0, 0, 0}
 			}
 			c := w.Do("SendMsg", func() (interface{}, error) { return nil, s.SendMsg(m) })
-			if !c.Wait(2 * time.Second) {
+			if !c.Wait(wt) {
 				w.Failf("C18/late", "SendMsg pending")
 				return
 			}
@@ -474,8 +484,8 @@ func c15WS(w *W) {
 	w.SetShape("role", role)
 	s := w.Sock(kind)
 	defer s.Close()
-	_ = s.SetOption(mangos.OptionRecvDeadline, 5*time.Second)
-	_ = s.SetOption(mangos.OptionSendDeadline, 5*time.Second)
+	_ = s.SetOption(mangos.OptionRecvDeadline, 20*time.Second)
+	_ = s.SetOption(mangos.OptionSendDeadline, 20*time.Second)
 	if kind == "sub" {
 		mustSet(w, s, mangos.OptionSubscribe, "")
 	}
@@ -536,13 +546,13 @@ func c15WS(w *W) {
 				w.Failf("C15/ws-subprotocol-offer:"+kind, "%s dialling over WebSocket offered %q, the mapping requires %q", kind, sp, want)
 				return
 			}
-		case <-time.After(10 * time.Second):
+		case <-time.After(30 * time.Second):
 			w.Failf("HARNESS/dial", "no WebSocket request arrived")
 			return
 		}
 		select {
 		case ws = <-got:
-		case <-time.After(10 * time.Second):
+		case <-time.After(30 * time.Second):
 			w.Failf("HARNESS/dial", "upgrade did not complete")
 			return
 		}
@@ -558,7 +568,7 @@ func c15WS(w *W) {
 				return
 			}
 			c := w.Do("RecvMsg", func() (interface{}, error) { return s.RecvMsg() })
-			if !c.Wait(10*time.Second) || c.Err != nil {
+			if !c.Wait(30*time.Second) || c.Err != nil {
 				w.Failf("C15/conforming-message-not-delivered:"+kind, "%s over ws: one binary frame of %d bytes was not delivered (%v)", kind, len(payload), c.Err)
 				return
 			}
@@ -577,7 +587,7 @@ func c15WS(w *W) {
 				w.Failf("C15/send-failed:"+kind, "%v", err)
 				return
 			}
-			ws.SetReadDeadline(time.Now().Add(10 * time.Second))
+			ws.SetReadDeadline(time.Now().Add(30 * time.Second))
 			mt, p, err := ws.ReadMessage()
 			if err != nil {
 				w.Failf("C15/frame-unparsable:"+kind, "%s over ws: %v", kind, err)
